@@ -48,6 +48,10 @@ def test_replay():
     for kind, width, addr, value in %(ops)r:
         if kind == "reset":
             m.reset(); flat = {}; continue
+        if kind == "table":
+            print(sim.get_data_memory_entries()); continue  # compare with what the backing memory holds (see the message)
+        if kind == "stats":
+            print(m.get_cache_stats()); continue
         crossing = (addr & 3) + width > 4
         try:
             if kind == "w":
@@ -77,7 +81,7 @@ def _cache_history(prop, case):
     cfg = Cfg(*case["cfg"])
     ops = []
     flat = {}
-    pre = [(cfg.spell(a), preload_byte(a)) for a in cfg.bytes] if cfg.pre else []
+    pre = [(cfg.spell(a), preload_byte(a)) for a in cfg.bytes if not (cfg.pre == 2 and not (a >> 2) & 1)] if cfg.pre else []
     for a, v in pre:
         flat[a & 0xFFFFFFFF] = v
     for i in case["hist"]:
@@ -87,6 +91,9 @@ def _cache_history(prop, case):
         if kind == "reset":
             ops.append(("reset", 0, 0, 0))
             flat = {}
+            continue
+        if kind in ("table", "stats"):
+            ops.append((kind, 0, 0, 0))
             continue
         val = 0
         if kind == "w":
